@@ -40,7 +40,7 @@ class Op:
         self.backend = backend    # None = CBMC's SAT back end; "--z3" / "--cvc5" = word-level SMT back end (measured per kernel)
 
 
-def _ops():
+def _ops(tier="quick"):
     ops = []
 
     def F(name, expr, aty, rty, nargs, enum, spec, dom="1", **kw):
@@ -99,6 +99,9 @@ def _ops():
                    (lambda r, x: "(%s(%s, %s) ? %s : %s)" % (lt[t], x, r, x, r))
             F("%s2_%s" % (o, t), "%s(x, y)" % o, t, t, 2, U + o.upper(), pick("a", "b"))
             F("%s3_%s" % (o, t), "%s(x, y, z)" % o, t, t, 3, U + o.upper(), pick(pick("a", "b"), "c"))
+            if tier == "thorough":
+                F("%s4_%s" % (o, t), "%s(x, y, z, x)" % o, t, t, 3, U + o.upper(), pick(pick(pick("a", "b"), "c"), "a"))
+                ops[-1].iargs = [0, 1, 2, 0]   # interpreter child list of the 4-argument call over 3 cells
     # constraints
     C("eq_i", "x = y", "i", "EQ", "(a == b)")
     C("ne_i", "x != y", "i", "NE", "(a != b)")
@@ -392,14 +395,17 @@ def build_tu(ops, emitted, macros, fs, cs):
     for op in ops:
         ps = ", ".join("RamDomain a%d" % k for k in range(op.nargs))
         if op.kind == "functor":
+            ia = getattr(op, "iargs", list(range(op.nargs)))
             iw.append("__attribute__((noinline)) RamDomain ki_%s(%s) { RamDomain x[%d] = {%s}; return verif_interp::fkernel<%s>(x, %d); }"
-                      % (op.name, ps, op.nargs, ", ".join("a%d" % k for k in range(op.nargs)), op.enum, op.nargs))
+                      % (op.name, ps, len(ia), ", ".join("a%d" % k for k in ia), op.enum, len(ia)))
             sw.append("__attribute__((noinline)) RamDomain ks_%s(%s) { const Tuple<RamDomain, %d> env0{{%s}}; return %s; }"
                       % (op.name, ps, op.nargs, ", ".join("a%d" % k for k in range(op.nargs)), emitted[op.name]))
         else:
             iw.append("__attribute__((noinline)) RamDomain ki_%s(%s) { return verif_interp::ckernel<%s>(a0, a1); }" % (op.name, ps, op.enum))
             sw.append("__attribute__((noinline)) RamDomain ks_%s(%s) { const Tuple<RamDomain, %d> env0{{%s}}; if (%s) { return 1; } return 0; }"
                       % (op.name, ps, op.nargs, ", ".join("a%d" % k for k in range(op.nargs)), emitted[op.name]))
+    for op in ops:
+        iw.append("int ke_%s(void) { return static_cast<int>(%s); }" % (op.name, op.enum))
     return (INTERP_TMPL.replace("@EVALMACROS@", macros).replace("@FSLICE@", fs).replace("@CSLICE@", cs)
             .replace("@IWRAPPERS@", "\n".join(iw)) + SYNTH_TMPL.replace("@SWRAPPERS@", "\n".join(sw)))
 
@@ -411,6 +417,8 @@ def driver_text(ops):
          'float verif_llvm_pow_f32(float x, float y) { return powf(x, y); }']
     for op in ops:
         d.append("uint32_t ki_%s(%s); uint32_t ks_%s(%s);" % (op.name, _c_sig(op), op.name, _c_sig(op)))
+    for op in ops:
+        d.append("int ke_%s(void);" % op.name)
     d.append("static const uint32_t BV[] = {%s};" % ", ".join("0x%xu" % v for v in BOUNDARY))
     d.append("#define NBV (sizeof(BV) / sizeof(BV[0]))")
     d.append("#define CANF(x) (fnan(x) ? 0x7fc00000u : (x))")
@@ -437,6 +445,12 @@ def driver_text(ops):
     d.append("}")
     d.append(r'''
 int main(int argc, char** argv) {
+  if (argc >= 2 && !strcmp(argv[1], "enum")) {
+    static const char* en[] = {NAMES};
+    int (*ef[])(void) = {ENUMFNS};
+    for (unsigned k = 0; k < sizeof(en) / sizeof(en[0]); k++) printf("%s %d\n", en[k], ef[k]());
+    return 0;
+  }
   if (argc >= 3 && !strcmp(argv[1], "one")) {
     uint32_t a = argc > 3 ? (uint32_t)strtoul(argv[3], 0, 0) : 0, b = argc > 4 ? (uint32_t)strtoul(argv[4], 0, 0) : 0,
              c = argc > 5 ? (uint32_t)strtoul(argv[5], 0, 0) : 0;
@@ -471,6 +485,43 @@ class Prepared:
     pass
 
 
+def check_frontend_operators(work, ops, tag="ops"):
+    """The interpreter arm used for a source operator is named by this check's table.  When the build has the
+    SOUFFLE_VERIF typed-RAM printing hook, compare the table with the operator the real front end puts into the RAM
+    (`op#<enumerator value>`); a disagreement is an engine error (the table is out of date), never a verdict."""
+    rc, out, err = sh([common.SOUFFLE, "--show=transformed-ram", os.path.join(work, tag + ".dl")], timeout=300, cwd=work,
+                      env={"SOUFFLE_VERIF_TYPED_RAM": "1"})
+    if rc != 0 or "#" not in out:
+        return "typed RAM printing hook not available: operator selection of the front end not cross-checked"
+    rc2, eout, err2 = sh([os.path.join(work, "diff_real"), "enum"], timeout=30)
+    if rc2 != 0:
+        raise EngineError("cannot obtain enumerator values from the native wrapper: " + (eout + err2)[-300:])
+    table = dict((l.split()[0], int(l.split()[1])) for l in eout.splitlines() if len(l.split()) == 2)
+    lines = out.splitlines()
+    seen = {}
+    for i, ln in enumerate(lines):
+        m = re.match(r"^\s*INSERT \((.*)\) INTO r_(\w+)\s*$", ln)
+        if not m:
+            continue
+        name = m.group(2)
+        tags = re.findall(r"#(\d+)", m.group(1))
+        if not tags and i > 0:
+            mc = re.match(r"^\s*IF \((.*)\)\s*$", lines[i - 1])
+            if mc:
+                tags = re.findall(r" (?:=|!=|<|<=|>|>=)#(\d+) ", mc.group(1))
+        if tags:
+            seen[name] = int(tags[0])
+    bad = []
+    for op in ops:
+        if op.name not in seen:
+            raise EngineError("operator of rule r_%s not found in the typed RAM" % op.name)
+        if seen[op.name] != table.get(op.name):
+            bad.append("%s: front end selects #%d, table says %s (= %s)" % (op.name, seen[op.name], op.enum, table.get(op.name)))
+    if bad:
+        raise EngineError("front end selects other operators than this check's table: " + "; ".join(bad))
+    return "operator selection of the real front end cross-checked against the table for %d rules (typed RAM hook)" % len(ops)
+
+
 def strip_personality(ll):
     """ir2c's function-header parser does not know the `personality` clause (present when the TU is compiled with
     exceptions enabled); the kernels contain no invoke/landingpad after folding, so the clause is dropped."""
@@ -485,7 +536,7 @@ def strip_personality(ll):
 
 def prepare(work, tier, seed, only=None):
     """Slice, generate, lower, translate, validate.  Shared with C02 (a)."""
-    ops = _ops()
+    ops = _ops(tier)
     if only:
         ops = [o for o in ops if only in o.name] or ops
     macros, fs, cs = slice_interpreter()
@@ -496,10 +547,12 @@ def prepare(work, tier, seed, only=None):
     ll = strip_personality(K.lower(cpp, os.path.join(work, "k24.ll")))
     c = K.translate(ll, os.path.join(work, "k24.c"))
     drv = os.path.join(work, "drv24.c")
-    open(drv, "w").write(driver_text(ops).replace("NAMES", ", ".join('"%s"' % o.name for o in ops))
+    open(drv, "w").write(driver_text(ops).replace("ENUMFNS", ", ".join("ke_%s" % o.name for o in ops)).replace("NAMES", ", ".join('"%s"' % o.name for o in ops))
                          .replace("NARGS", ", ".join(str(o.nargs) for o in ops)).replace("SEED", "%du" % (seed * 2654435761 % (1 << 32) or 12345)))
     nlines = K.differential(work, drv, c, cpp, extra_c=["-D__dso_handle=verif_dso_handle"], timeout=600)
+    frontend = check_frontend_operators(work, ops)
     p = Prepared()
+    p.frontend = frontend
     p.ops, p.emitted, p.gen_sha, p.cpp, p.c, p.nlines, p.work = ops, emitted, gen_sha, cpp, c, nlines, work
     p.native = os.path.join(work, "diff_real")
     return p
@@ -602,6 +655,7 @@ def coverage(p, obls, tier):
         "solver_time_s": round(sum((o.res.time if o.res else 0) + (o.wres.time if o.wres else 0) for o in obls), 1),
         "slowest": sorted(((round(o.res.time, 1), o.meta["kernel"]) for o in obls if o.res), reverse=True)[:5],
         "translation_validation_lines": p.nlines,
+        "front_end_operator_selection": p.frontend,
         "samples": samples[:8] + [s for s in samples[8:] if s.get("kernel") in ("div_i", "bshr_i", "ftoi", "lt_f", "max3_f", "pow_i")],
         "outside": ["string-valued operators (cat, substr, strlen, ord, to_string, to_number on symbols, smin/smax, match, contains)",
                     "`^` is checked only as equality of the two back ends with std::pow as one uninterpreted function whose result is representable",
